@@ -203,6 +203,12 @@ def check_reads(chk, prog, sim):
                         ok = False
                         continue
                     stl = leaf.state
+                    ta = K.time_arith(leaf)
+                    if ta:
+                        chk.violation("C09.read", "read:%s:time-arithmetic" % which, "Terminal read %s does integer arithmetic on timestamps (%s %s %s) instead of comparing them: with near-extreme timestamps "
+                                      "(Time(i64::MIN) is the crate's own 'nothing yet' seed) the difference overflows - a panic in debug builds, the OLDER command in release builds" % ((case,) + tuple(ta[0])),
+                                      fn=fn["pretty"], file=loc(fn["span"]))
+                        ok = False
                     g = K.classify_output(sim, stl, leaf.value)
                     bad = None
                     has_s = [x for x, p in (("a", own_s), ("b", partner and ps)) if p]
@@ -274,6 +280,15 @@ def run(chk):
     who_may_write(chk, prog)
     check_links(chk, prog, sim)
     check_reads(chk, prog, sim)
+    # same read tables in the release profile (debug_assert! and overflow checks compiled out)
+    import report
+    p6 = load_config("K6")
+    chk.configs.append("K6")
+    sub6 = report.Check("C09", chk.tier)
+    check_reads(sub6, p6, S.Sim(p6))
+    chk.evaluations += sub6.evaluations
+    for v in sub6.violations:
+        chk.violation(v["rule"], v["key"] + "@K6", "[release profile] " + v["what"], **v["detail"])
     import selftest
     selftest.expect(chk, "C09", who_may_write, "C09.R1", "a free function storing Terminal's partner link", "writer:rogue_link")
     chk.assume("matching invariant (symmetric, at most one partner) holds before each operation: established inductively by R2 from the constructor, R1 shows no other writer",
